@@ -15,7 +15,9 @@ Moves(r, U) == {[Key2(r, U) EXCEPT ![e] = kk] : e \in U, kk \in 1..(2 * Len(r) +
 
 \* the library's threshold: a move is taken only if it gains more than 0.001, i.e. in units of 1/Unit
 \* more than Unit/1000
-Improves(old, new, Unit) == (old - new) * 1000 > Unit
+\* (old - new) * 1000 > Unit, written without the product (TLC integers are 32-bit): for integers d and Unit >= 0,
+\* d * 1000 > Unit  <=>  d > Unit \div 1000
+Improves(old, new, Unit) == (old - new) > (Unit \div 1000)
 
 LocalOpt(r, C, U, Unit) ==
     LET s0 == ScoreK(Key2(r, U), C, U)
